@@ -34,7 +34,7 @@ struct XdhSim {
     const Plan &p; Result &r; Net net;
     secp256k1_context *ctx = nullptr;
     uint64_t inseed = 0, draw = 0;
-    int k = 1;
+    int k = 1; bool use_static = false;
     struct Peer { uint8_t sk[32]; bool sk_valid = true; secp256k1_pubkey pk; ref::Pt pt; Bytes mine; bool done = false; int ret = -1; Bytes out; bool got_intact = false; int party = 0; };
     struct Sess { int mode = 0; int hasher = 0; int fmt[2] = {0, 0}; Peer peer[2]; uint8_t salt[32]; uint8_t prefix[64]; bool role_confusion = false; int create_via = 0; };
     std::vector<Sess> ss;
@@ -49,7 +49,7 @@ struct XdhSim {
         if (P.done) return;
         secp256k1_pubkey peer;
         if (m.bytes.empty()) { r.probe("empty_record_dropped"); return; }   // nothing to hand to the parser (a NULL input pointer would be caller misuse)
-        bool ok = L01(secp256k1_ec_pubkey_parse(ctx, &peer, m.bytes.data(), m.bytes.size()));
+        bool ok = L01(secp256k1_ec_pubkey_parse(frugal_ctx(use_static, ctx, "secp256k1_ec_pubkey_parse"), &peer, m.bytes.data(), m.bytes.size()));
         ref::Pt mp; bool mok = ref::parse_pubkey(m.bytes.data(), m.bytes.size(), &mp);
         r.cmp();
         if (ok != mok) { r.violate("C18", "parse", "secp256k1_ec_pubkey_parse", "library and model disagree on a received public key (" + std::to_string(m.bytes.size()) + " bytes) " + hex(m.bytes).substr(0, 70)); return; }
@@ -59,9 +59,9 @@ struct XdhSim {
         Buf out(32);
         MonMark mk = mon_mark();
         int ret;
-        if (S.hasher == H_DEFAULT) ret = L01(secp256k1_ecdh(ctx, out.p(), &peer, P.sk, NULL, NULL));
-        else if (S.hasher == H_EXPLICIT || S.hasher == H_PREFIX) ret = L01(secp256k1_ecdh(ctx, out.p(), &peer, P.sk, secp256k1_ecdh_hash_function_sha256, NULL));
-        else ret = L01(secp256k1_ecdh(ctx, out.p(), &peer, P.sk, custom_ecdh, &ctl));
+        if (S.hasher == H_DEFAULT) ret = L01(secp256k1_ecdh(frugal_ctx(use_static, ctx, "secp256k1_ecdh"), out.p(), &peer, P.sk, NULL, NULL));
+        else if (S.hasher == H_EXPLICIT || S.hasher == H_PREFIX) ret = L01(secp256k1_ecdh(frugal_ctx(use_static, ctx, "secp256k1_ecdh"), out.p(), &peer, P.sk, secp256k1_ecdh_hash_function_sha256, NULL));
+        else ret = L01(secp256k1_ecdh(frugal_ctx(use_static, ctx, "secp256k1_ecdh"), out.p(), &peer, P.sk, custom_ecdh, &ctl));
         r.cmp();
         if (!mon_quiet_since(mk)) { r.violate("C18", "callback", "secp256k1_ecdh", "callback on valid arguments: " + g_mon.last_illegal); return; }
         bool expect = P.sk_valid && S.hasher != H_FAILING;
@@ -84,7 +84,7 @@ struct XdhSim {
         // every 64-byte string decodes to a valid point equal to the ElligatorSwift map
         secp256k1_pubkey dec; uint8_t db[33], mb[33]; size_t l = 33;
         MonMark mk = mon_mark();
-        int dok = L01(secp256k1_ellswift_decode(ctx, &dec, m.bytes.data()));
+        int dok = L01(secp256k1_ellswift_decode(frugal_ctx(use_static, ctx, "secp256k1_ellswift_decode"), &dec, m.bytes.data()));
         int sok = dok && L01(secp256k1_ec_pubkey_serialize(ctx, db, &l, &dec, SECP256K1_EC_COMPRESSED));
         ref::Pt mp = ref::ellswift_decode(m.bytes.data());
         r.cmp();
@@ -98,10 +98,10 @@ struct XdhSim {
         Buf out(32);
         mk = mon_mark();
         int ret;
-        if (S.hasher == H_DEFAULT || S.hasher == H_EXPLICIT) ret = L01(secp256k1_ellswift_xdh(ctx, out.p(), ea, eb, P.sk, party, secp256k1_ellswift_xdh_hash_function_bip324, NULL));
+        if (S.hasher == H_DEFAULT || S.hasher == H_EXPLICIT) ret = L01(secp256k1_ellswift_xdh(frugal_ctx(use_static, ctx, "secp256k1_ellswift_xdh"), out.p(), ea, eb, P.sk, party, secp256k1_ellswift_xdh_hash_function_bip324, NULL));
         else if (S.hasher == H_PREFIX) { memcpy(node_prefix, S.prefix, 64);   // the node keeps one buffer for the per-session prefix and refills it before each call
-            ret = L01(secp256k1_ellswift_xdh(ctx, out.p(), ea, eb, P.sk, party, secp256k1_ellswift_xdh_hash_function_prefix, node_prefix)); }
-        else ret = L01(secp256k1_ellswift_xdh(ctx, out.p(), ea, eb, P.sk, party, custom_xdh, &ctl));
+            ret = L01(secp256k1_ellswift_xdh(frugal_ctx(use_static, ctx, "secp256k1_ellswift_xdh"), out.p(), ea, eb, P.sk, party, secp256k1_ellswift_xdh_hash_function_prefix, node_prefix)); }
+        else ret = L01(secp256k1_ellswift_xdh(frugal_ctx(use_static, ctx, "secp256k1_ellswift_xdh"), out.p(), ea, eb, P.sk, party, custom_xdh, &ctl));
         r.cmp();
         if (!mon_quiet_since(mk)) { r.violate("C18", "callback", "secp256k1_ellswift_xdh", "callback on valid arguments: " + g_mon.last_illegal); return; }
         bool expect = P.sk_valid && S.hasher != H_FAILING;
@@ -120,6 +120,7 @@ struct XdhSim {
     void run() {
         inseed = (uint64_t)p.c("inseed");
         k = (int)std::max<int64_t>(1, std::min<int64_t>(4, p.c("sessions", 1)));
+        use_static = p.c("static_ctx"); if (use_static) r.fault("peers_use_static_context");
         ctx = L(secp256k1_context_create(SECP256K1_CONTEXT_NONE));
         if (p.c("rand_ctx")) { uint8_t s[32]; fresh32(s); (void)L(secp256k1_context_randomize(ctx, s)); }
         if (p.c("comp")) L(secp256k1_context_set_sha256_compression(ctx, sim_model_compression));
@@ -193,7 +194,7 @@ static Plan xdh_generate(uint64_t seed, int) {
     Plan p;
     p.cfg["inseed"] = (int64_t)(g.next() >> 1);
     int k = (int)g.range(1, 4);
-    p.cfg["sessions"] = k; p.cfg["rand_ctx"] = (int64_t)g.below(2); p.cfg["comp"] = g.chance(1, 4);
+    p.cfg["sessions"] = k; p.cfg["rand_ctx"] = (int64_t)g.below(2); p.cfg["comp"] = g.chance(1, 4); p.cfg["static_ctx"] = g.chance(1, 3);
     for (int s = 0; s < k; s++) {
         Op o; o.k = "sess"; o.a = {s, (int64_t)g.below(2), (int64_t)g.below(H_NH), (int64_t)g.below(3), (int64_t)g.below(3), g.chance(1, 8), (int64_t)g.below(2)}; p.ops.push_back(o);
         for (int w = 0; w < 2; w++) {
